@@ -318,6 +318,17 @@ impl ZmtpEngine {
           );
           return;
         }
+        // ZMTP/2.0 has no security handshake: a peer that announces it can never complete the
+        // configured mechanism, so refuse the downgrade instead of skipping authentication.
+        if self.config.security_enabled {
+          self.fail(
+            out,
+            ZmqError::SecurityError(
+              "ZMTP/2.0 peer cannot complete the configured security mechanism".into(),
+            ),
+          );
+          return;
+        }
         // The v2 socket-type lives at byte 11; wait for the full 12-byte header.
         if self.network_read_accumulator.len() < V2_GREETING_LENGTH {
           return;
